@@ -30,5 +30,6 @@ try:
     print(r.stdout[-1500:]); print(r.stderr[-800:]); print("rc=", r.returncode)
     # keep evidence of the real tree: restore by git
     subprocess.run(["git", "-C", "/verif", "checkout", "--", "evidence"], capture_output=True)
+    subprocess.run(["git", "-C", "/verif", "clean", "-fdq", "replays"], capture_output=True)
 finally:
     shutil.rmtree(d, ignore_errors=True)
